@@ -153,6 +153,8 @@ structure Watch where
   spendRegs : List SpendReg := []
   spendMap : Option Nat := none
   expiry : Option Nat := none
+  confDirty : Bool := false   -- a live conf registration was cancelled: its goroutine is winding down
+  spendDirty : Bool := false
 deriving Repr
 
 inductive Effect where
@@ -192,37 +194,61 @@ def write (s : AState) (a : Acct) : AState :=
 def maybeBroadcast (s : AState) (t : Tx) : AState :=
   if t.signed then { s with trace := s.trace ++ [.publish t] } else s
 
+/-- was the registration with this id still live (cancelling it makes its goroutine exit)? -/
+def liveConf (w : Watch) (id : Nat) : Bool := w.confRegs.any (fun r => r.id == id)
+def liveSpend (w : Watch) (id : Nat) : Bool := w.spendRegs.any (fun r => r.id == id)
+
 /-- `controller.WatchAccountConf`: cancel the handle in the map (if any), register, store the handle. -/
 def regConf (s : AState) (txid : Nat) (sc : Script) : AState :=
   let regs := match s.w.confMap with
     | some id => s.w.confRegs.filter (fun r => r.id != id)
     | none => s.w.confRegs
+  let dirty := match s.w.confMap with
+    | some id => s.w.confDirty || liveConf s.w id
+    | none => s.w.confDirty
   { s with
     w := { s.w with
       confRegs := regs ++ [{ id := s.nextReg, txid := txid, script := sc }]
-      confMap := some s.nextReg }
+      confMap := some s.nextReg
+      confDirty := dirty }
     nextReg := s.nextReg + 1 }
 
 def regSpend (s : AState) (op : OutPoint) (sc : Script) : AState :=
   let regs := match s.w.spendMap with
     | some id => s.w.spendRegs.filter (fun r => r.id != id)
     | none => s.w.spendRegs
+  let dirty := match s.w.spendMap with
+    | some id => s.w.spendDirty || liveSpend s.w id
+    | none => s.w.spendDirty
   { s with
     w := { s.w with
       spendRegs := regs ++ [{ id := s.nextReg, op := op, script := sc }]
-      spendMap := some s.nextReg }
+      spendMap := some s.nextReg
+      spendDirty := dirty }
     nextReg := s.nextReg + 1 }
 
 /-- `controller.CancelAccountConf`: cancels the handle, the map entry stays. -/
 def cancelConf (s : AState) : AState :=
   match s.w.confMap with
-  | some id => { s with w := { s.w with confRegs := s.w.confRegs.filter (fun r => r.id != id) } }
+  | some id => { s with w := { s.w with confRegs := s.w.confRegs.filter (fun r => r.id != id),
+                                        confDirty := s.w.confDirty || liveConf s.w id } }
   | none => s
 
 def cancelSpend (s : AState) : AState :=
   match s.w.spendMap with
-  | some id => { s with w := { s.w with spendRegs := s.w.spendRegs.filter (fun r => r.id != id) } }
+  | some id => { s with w := { s.w with spendRegs := s.w.spendRegs.filter (fun r => r.id != id),
+                                        spendDirty := s.w.spendDirty || liveSpend s.w id } }
   | none => s
+
+/-- the goroutines of cancelled registrations see lnd's `Canceled` stream error and exit; their deferred
+clean-up deletes the map entry of the account – *whichever* registration it belongs to by then (the map is
+keyed by the trader key only), without cancelling it. -/
+def flush (s : AState) : AState :=
+  { s with w := { s.w with
+      confMap := if s.w.confDirty then none else s.w.confMap
+      spendMap := if s.w.spendDirty then none else s.w.spendMap
+      confDirty := false
+      spendDirty := false } }
 
 /-- `HandleAccountExpiry` -/
 def handleExpiry (s : AState) : AState :=
@@ -561,6 +587,7 @@ inductive Op where
   | watchMatched
   | restart (feeOk : Bool) (fundTx : Option (Nat × Nat))
   | recover (a : Acct) (known : List Tx) -- RecoverAccount (C20), `known` = wallet transactions
+  | flush                                -- cancelled watcher goroutines wind down
 deriving Repr
 
 def step (s : AState) : Op → AState × Res
@@ -620,6 +647,7 @@ def step (s : AState) : Op → AState × Res
     let s := { s with wallet := known }
     let a := { a with secret := s.signerSecret }
     resume (write s a) a false true false none
+  | .flush => (flush s, .ok)
 
 def run (s : AState) : List Op → AState
   | [] => s
